@@ -71,6 +71,12 @@ pub struct TickBudget;
 
 pub const DISARMED: i64 = -1;
 
+/// light mode (Miri batches): short histories, few crash points, sparse full drains
+pub static LIGHT: std::sync::atomic::AtomicBool = std::sync::atomic::AtomicBool::new(false);
+pub fn light() -> bool {
+    LIGHT.load(std::sync::atomic::Ordering::Relaxed)
+}
+
 pub struct SimTls {
     /// calls per class since the last `reset_counts`
     pub calls: [Cell<u64>; N_CB],
